@@ -7,6 +7,7 @@ import (
 	"io"
 	"net/http"
 	"strings"
+	"time"
 
 	sse "github.com/tmaxmax/go-sse"
 
@@ -20,6 +21,7 @@ import (
 // input : ( n<entry> (x<chunk> ...) ending stop (n<hasbuf> n<cap> z<max>) x<id0> )
 //   entry  0 sse.Read(r, cfg)            cfg = nil if hasbuf=0 and max=0, else &ReadConfig{MaxEventSize: max}
 //          1 Connection (scripted http.RoundTripper, MaxRetries -1, SubscribeToAll, Connection.Buffer(buf, max))
+//          4 as 1, but the stream is the body of the connection's SECOND attempt (first response: empty body; MaxRetries 1)
 //          2 read() as a Connection calls it (retry callback, EOF reported), initial last event ID id0
 //          3 read() as sse.Read calls it (no retry callback, EOF ignored), initial last event ID id0
 //            (2, 3: Parser.Buffer(buf, max) is called iff hasbuf=1 or max>0)
@@ -139,22 +141,53 @@ func execParse(in val.V) (out val.V) {
 			cfg = &sse.ReadConfig{MaxEventSize: maxSize}
 		}
 		sse.Read(rd, cfg)(consume)
-	case 1:
+	case 1, 4:
 		ctx, cancel := context.WithCancel(context.Background())
 		defer cancel()
 		rd.ctx, rd.cancel = ctx, cancel
+		// entry 4: the stream arrives on the SECOND attempt of the connection (the first response has an empty body),
+		// so that whatever Connection.Buffer configured must still be in force after a reconnect
+		attempts := 0
+		bo := sse.Backoff{MaxRetries: -1}
+		var secondErr error
+		var onRetryErr func(error, time.Duration)
+		if entry == 4 {
+			// every validated response resets the retry counter, so the run is ended from OnRetry: the error that ends
+			// the second attempt is the observation, then the context is cancelled
+			bo = sse.Backoff{MaxRetries: 0, InitialInterval: time.Microsecond, Jitter: -1}
+			retries := 0
+			onRetryErr = func(err error, _ time.Duration) {
+				retries++
+				if retries == 2 {
+					secondErr = err
+					cancel()
+				}
+			}
+		}
 		client := sse.Client{
 			HTTPClient: &http.Client{Transport: parseRT(func(r *http.Request) (*http.Response, error) {
+				attempts++
+				if entry == 4 && attempts > 2 {
+					// the timer may win the select against the cancelled context: nothing more is to be read
+					return nil, context.Canceled
+				}
+				if entry == 4 && attempts == 1 {
+					return &http.Response{StatusCode: http.StatusOK, Body: io.NopCloser(strings.NewReader("")), Request: r, Header: http.Header{}}, nil
+				}
 				return &http.Response{StatusCode: http.StatusOK, Body: rd, Request: r, Header: http.Header{}}, nil
 			})},
 			ResponseValidator: sse.NoopValidator,
-			Backoff:           sse.Backoff{MaxRetries: -1},
+			Backoff:           bo,
+			OnRetry:           onRetryErr,
 		}
 		req, _ := http.NewRequestWithContext(ctx, http.MethodGet, "http://verif.invalid/", http.NoBody)
 		conn := client.NewConnection(req)
 		conn.Buffer(buf, maxSize)
 		conn.SubscribeToAll(func(e sse.Event) { yields = append(yields, encEvent(e)) })
 		err := conn.Connect()
+		if entry == 4 && secondErr != nil {
+			err = secondErr
+		}
 		if err != nil {
 			yields = append(yields, val.L(val.N(2), projParseErr(err)))
 		}
@@ -200,7 +233,11 @@ func (pc parseCase) emit(c *Ctx) {
 	if pc.stop >= 0 {
 		stop = val.L(val.Int(pc.stop))
 	}
-	c.Emit(val.L(val.Int(pc.entry), val.List(chunks), pc.ending, stop,
+	entry := pc.entry
+	if entry == 1 && c.R.Intn(3) == 0 {
+		entry = 4
+	}
+	c.Emit(val.L(val.Int(entry), val.List(chunks), pc.ending, stop,
 		val.L(val.Bool(pc.hasBuf), val.Int(pc.capBuf), val.Z(pc.maxSize)), val.S(pc.id0)))
 }
 
